@@ -57,7 +57,9 @@ class Gen:
         return s
 
     def atom(self, name):
-        return self._new(name, 'atom')
+        a = self._new(name, 'atom')
+        self.ctx.atoms.append(a)
+        return a
 
     def U(self, name, allowed=('none', 'bool', 'int', 'real', 'str')):
         s = self._new(name, 'U')
@@ -163,6 +165,8 @@ class Reifier:
         if k == 'str':
             return decode_z3_string(t)
         if k == 'atom':
+            if z3.is_const(s.t) and s.t.decl().name().split('!')[0] == 'uuid':
+                return WILD
             return f'@atom{t.as_long()}'
         # universal
         name = t.decl().name()
@@ -218,7 +222,7 @@ class Reifier:
             self.memo[id(v)] = d
             for k, (g, x) in v.e.items():
                 if self.guard(g):
-                    d[self(k) if isinstance(k, PObj) else k] = self(x)
+                    d[self(k) if isinstance(k, (PObj, Sym)) else k] = self(x)
             return d
         if isinstance(v, DictView):
             return getattr(self(v.d), v.kind)()
